@@ -12,7 +12,7 @@ RACE = False
 JOBS = 8
 RULE = ("scenario = trip, then arrivals swept over the recovery period on grids of 1/4..1/64 of its length (bursts, trickles, idle gaps, dense, "
         "off-grid), outcome codes of re-admitted requests good/mixed/bad, then the end of the period (t0+rec exactly, +1 ns, later); recovery "
-        "durations 1 ms..1 h incl. powers of two (exact float ties) and 0; non-trivial = a recovery with at least one passed and one refused "
+        "durations 1 ms..1 h incl. powers of two (exact float ties) and 0, and in a fifth of the scenarios days..130 years (2^47..2^61 ns incl.) with bulk arrivals (`burst n step` = n arrivals with the clock advancing after each, 200..5000 per ramp) so that products like 2*(allowed+1)*duration pass 2^63; non-trivial = a recovery with at least one passed and one refused "
         "request and a return to standby or a re-trip. Float: every ramp decision of the run is re-computed in IEEE doubles as ratio.go "
         "does and exactly; inputs where the two differ or lie within 2^-40 relative are nudged by rec/10^6 ns (count: histogram "
         "float:nudged-inputs), exact ties are kept (ramp:exact-tie)")
